@@ -448,47 +448,6 @@ def register(R: Registry):
           notes="post-traversal step only; the traversal is replaced by an arbitrary result (assumption listed)",
           options=dict(OPTS))
 
-    # ================================================================ get_furcations: the output step
-    # the traversal is abstracted (it may record ANY sequence of ids through the callback's list); the method must hand back
-    # one handle per recorded id, in order, on this tree, addressed by the recorded id.
-    def gf_setup(S):
-        t = sym_tree(S, "t", frozen=True)
-        cell = {}
-
-        def traverse_model(eng, args, kwargs):
-            eng.assumptions.add("abstraction: Tree.traverse(leave=collect_furcations) appends an arbitrary sequence of ids to the callback's list")
-            leave = kwargs.get("leave")
-            if args or set(kwargs) != {"leave"} or not hasattr(leave, "frame"):
-                raise X.Unsupported("get_furcations calls traverse in an unexpected form")
-            fl = leave.frame.lookup("furcations")
-            if not (isinstance(fl, PList) and fl.items == []):
-                raise X.Unsupported("the callback's list is not empty before the traversal")
-            fl.name = "recorded"
-            fl.promote("int")
-            eng.assume(fl.n >= 0)
-            cell["rec"] = (fl, fl.cols[0], fl.n)
-            cell["calls"] = cell.get("calls", 0) + 1
-            return None
-
-        t.fields["traverse"] = S.callback("Tree.traverse", traverse_model)
-        return dict(self=t, __ghost__=dict(cell=cell))
-
-    def gf_post(E, v, o):
-        cell = E.spec_extra["cell"]
-        res = _handles(v)
-        t = v["self"]
-        if cell.get("calls") != 1 or res is None or res.fixed.get("attach") is not t:
-            return False
-        fl, c0, n0 = cell["rec"]
-        k = z3.Int(fresh_name("k"))
-        return z3.And(zint(res.n) == zint(n0), z3.ForAll([k], z3.Implies(z3.And(0 <= k, k < zint(n0)), z3.Select(res.col("idx"), k) == z3.Select(c0, k))))
-
-    R.add(f"{TREE}:Tree.get_furcations", prop="C08",
-          setup=gf_setup,
-          ensures=[("one-handle-per-recorded-furcation-id-in-order", gf_post)],
-          notes="output step only; the traversal is replaced by an arbitrary recording (assumption listed)",
-          options=dict(OPTS))
-
     # ================================================================ Tree.Node.branch on fixed small shapes
     # For a pass-through node or a tip x the result must be THE branch that contains the edge into x (for a one-child root:
     # the branch it starts): it contains x, starts at the root or a furcation, ends at a furcation or a tip, has only
@@ -548,3 +507,120 @@ def register(R: Registry):
           ensures=[("the-branch-through-the-node-root-or-furcation-to-furcation-or-tip-pass-through-inside", nb_post)],
           notes="fixed concrete topologies (4 shapes, every non-furcation node); the is_furcation / is_tip / parent / children calls are inlined from the current source",
           options=dict(OPTS))
+
+
+# ===========================================================================================================================
+# whole-function contracts through the traverse client rule (pyvc/traverse_rule.py): trees of ANY size
+_reg8 = register
+I_, B_ = z3.IntSort(), z3.BoolSort()
+sel = z3.Select
+
+
+class Ghost8:
+    """marker class of ghost-state objects of this module"""
+
+
+def wf_tree8(S, name="t"):
+    """a well-formed input tree (ids = positions, node 0 the root, parents exist, depth witness); frozen: any store into it
+    is a failed frame obligation"""
+    from contracts.C04 import depth
+
+    t = sym_tree(S, name, frozen=True)
+    n = nof(t)
+    i = z3.Int(fresh_name("i"))
+    idc, pid = col(t, "id").arr, col(t, "pid").arr
+    S.assume(z3.ForAll([i], z3.Implies(z3.And(i >= 0, i < n), sel(idc, i) == i)))
+    S.assume(sel(pid, 0) == -1)
+    S.assume(z3.ForAll([i], z3.Implies(z3.And(i > 0, i < n), z3.And(sel(pid, i) >= 0, sel(pid, i) < n))))
+    S.assume(depth(0) == 0)
+    S.assume(z3.ForAll([i], z3.Implies(z3.And(i > 0, i < n), z3.And(depth(i) == depth(sel(pid, i)) + 1, depth(i) > 0))))
+    return t
+
+
+def list_view8(L):
+    """(z3 array, z3 length) of an int list, concrete or symbolic"""
+    if L.items is None:
+        return L.cols[0], zint(L.n)
+    a = z3.K(I_, z3.IntVal(0))
+    for k, x in enumerate(L.items):
+        a = z3.Store(a, k, to_z3(x, "int"))
+    return a, z3.IntVal(len(L.items))
+
+
+def register_whole(R):
+    from pyvc.traverse_rule import Rule
+
+    # ================================================================ Tree.get_furcations as a whole
+    # property: "furcations [are] exactly the nodes with two or more children" (each once).  Traversal invariant: the
+    # callback's list holds exactly the nodes LEFT so far that have more than one child, each once (ghost inverse `at`).
+    def gfw_setup(S):
+        t = wf_tree8(S)
+        G = Obj(Ghost8, dict(at=SArr(z3.K(I_, z3.IntVal(-1)), nof(t), "int", name="at")))
+        return dict(self=t, G8=G)
+
+    def gfw_J(E, v, ENT, LEFT, ctx):
+        A, ln = list_view8(v["furcations"])
+        at = v["G8"].fields["at"].arr
+        a, x = z3.Int(fresh_name("a")), z3.Int(fresh_name("x"))
+        inl = lambda t: z3.And(t >= 0, t < ln)
+        return z3.And(ln >= 0,
+                      z3.ForAll([a], z3.Implies(inl(a), z3.And(sel(LEFT, sel(A, a)), ctx.nkids(sel(A, a)) > 1, sel(at, sel(A, a)) == a))),
+                      z3.ForAll([x], z3.Implies(z3.And(sel(LEFT, x), ctx.nkids(x) > 1), z3.And(inl(sel(at, x)), sel(A, sel(at, x)) == x))))
+
+    def gfw_ghost_leave(E, v, x, ctx):
+        A, ln = list_view8(v["furcations"])
+        G = v["G8"]
+        G.fields["at"].arr = z3.If(ctx.nkids(x) > 1, z3.Store(G.fields["at"].arr, x, ln - 1), G.fields["at"].arr)
+
+    def two_rows(t, x):
+        a, b = z3.Ints(fresh_name("a") + " " + fresh_name("b"))
+        P, n = col(t, "pid").arr, nof(t)
+        return z3.Exists([a, b], z3.And(0 <= a, a < b, b < n, sel(P, a) == x, sel(P, b) == x))
+
+    def gfw_post(which):
+        def f(E, v, o):
+            from swcgeom.core.tree import Tree
+
+            t, res = o["self"], v["result"]
+            if not (isinstance(res, X.ObjList) and res.cls_ is Tree.Node and res.vnames == ["idx"]):
+                return False
+            if which == "handles-on-this-tree":
+                return res.fixed.get("attach") is v["self"] and res.fixed.get("names") is t.fields["names"]
+            n, m, idx = nof(t), zint(res.n), res.col("idx")
+            k, k2, x = z3.Int(fresh_name("k")), z3.Int(fresh_name("k2")), z3.Int(fresh_name("x"))
+            ik = sel(idx, k)
+            if which == "every-handle-is-a-node-with-two-or-more-children":
+                return z3.ForAll([k], z3.Implies(z3.And(0 <= k, k < m), z3.And(0 <= ik, ik < n, two_rows(t, ik))))
+            if which == "every-node-with-two-or-more-children-is-listed":
+                return z3.ForAll([x], z3.Implies(z3.And(0 <= x, x < n, two_rows(t, x)), z3.Exists([k], z3.And(0 <= k, k < m, ik == x))))
+            if which == "each-once":
+                return z3.ForAll([k, k2], z3.Implies(z3.And(0 <= k, k < k2, k2 < m), ik != sel(idx, k2)))
+            raise KeyError(which)
+
+        return f
+
+    def gfw_hint(E, vars):
+        """nkids(x) > 1  <=>  two distinct rows name x as parent (from the definition of kid / rank)"""
+        ctx = E.ghost["last-traverse-ctx"]
+        t = vars["self"]
+        P, n = col(t, "pid").arr, nof(t)
+        x, a, b = z3.Int(fresh_name("x")), z3.Int(fresh_name("a")), z3.Int(fresh_name("b"))
+        k0, k1 = ctx.kid(x, 0), ctx.kid(x, 1)
+        E.prove("Tree.get_furcations/step/the-first-two-children-are-two-rows-naming-the-node-as-parent",
+                z3.ForAll([x], z3.Implies(z3.And(ctx.R(x), ctx.nkids(x) > 1), z3.And(0 <= k0, k0 < k1, k1 < n, sel(P, k0) == x, sel(P, k1) == x))), "annotation")
+        E.prove("Tree.get_furcations/step/two-rows-naming-the-node-as-parent-are-two-children",
+                z3.ForAll([x, a, b], z3.Implies(z3.And(ctx.R(x), 0 <= a, a < b, b < n, sel(P, a) == x, sel(P, b) == x), ctx.nkids(x) > 1)), "annotation")
+        E.prove("Tree.get_furcations/step/more-than-one-child-iff-two-rows-name-the-node-as-parent",
+                z3.ForAll([x], z3.Implies(ctx.R(x), (ctx.nkids(x) > 1) == two_rows(t, x))), "annotation")
+
+    GFW = ["handles-on-this-tree", "every-handle-is-a-node-with-two-or-more-children", "every-node-with-two-or-more-children-is-listed", "each-once"]
+    R.add(f"{TREE}:Tree.get_furcations", prop="C08", setup=gfw_setup,
+          ensures=[(w, gfw_post(w)) for w in GFW],
+          options=dict(OPTS, traverse_rule=Rule(gfw_J, modifies=[("furcations", "int"), "G8"], leave_kind="oref", ghost_leave=gfw_ghost_leave),
+                       hints={"post/every-handle-is-a-node-with-two-or-more-children": gfw_hint}),
+          notes="whole function, trees of any size (traverse client rule); the input tree is frozen")
+
+
+def register(R):  # noqa: F811
+    _reg8(R)
+    register_whole(R)
